@@ -621,6 +621,32 @@ def r09_13(run, model):
     run.floor("branch statement lists of the sibling lowerings", n, 6)
 
 
+def r09_15(run, model):
+    run.rule("R09.15", "the translation of a sub-term appears once in the output: in the term-to-term passes a local that holds the result of "
+                       "translating a child (a call to a function of the pass that returns the pass's expression type) is moved into the result, "
+                       "never cloned - a clone per use evaluates the child once per use; expected count zero, the locals examined are the coverage")
+    from rules import c01 as _c01
+    n = 0
+    for file in _c01.FILTER_FREE_FILES:
+        fns = [g for g in model.fns(file) if g.body is not None]
+        exprret = {g.name for g in fns if re.fullmatch(r"(\w+::)*(Expr|MonoExpr|LiftExpr|AExpr|CExpr|ImmExpr)", (g.node.get("ret") or "").replace(" ", ""))}
+        if not exprret:
+            raise AnalysisIncomplete(f"{file}: no function returning the pass's expression type")
+        for f in fns:
+            for l in S.find(f.body, "Local"):
+                if l.get("init") is None or l["init"]["k"] not in ("Call", "MethodCall") or S.callee_name(l["init"]) not in exprret:
+                    continue
+                names = set(S.pat_bindings(l["pat"]))
+                n += 1
+                for c in S.walk(f.body):
+                    if c["k"] == "MethodCall" and c["method"] in ("clone", "cloned", "to_owned") and c["recv"]["k"] == "Path" and S.idents(c["recv"]) & names:
+                        run.ob("R09.15", f"{f.name}|the translated `{S.callee_name(l['init'])}` result `{sorted(names)[0]}` is used once", False, site(file, c["sp"]),
+                               "the translated child is cloned into the output",
+                               witness="let (a, b) = (eff(1), eff(2)): the tuple expression is evaluated once per bound variable, `1 2 1 2` is printed")
+    run.ob("R09.15", "no translated child is cloned in the term-to-term passes", True, site(_c01.FILTER_FREE_FILES[0], (1, 0, 1, 0)), f"{n} locals holding a translated child examined")
+    run.floor("locals holding a translated child", n, 30)
+
+
 def r09_14(run, model):
     run.rule("R09.14", "an arm that leaves early has translated every sub-term first: in every arm of a rewriting pass, before each `return`, "
                        "each field of the matched node that carries sub-terms was handed to the traversal (or the path has established that it "
@@ -716,4 +742,5 @@ def run(run, model):
     run.try_rule(r09_12, model)
     run.try_rule(r09_13, model)
     run.try_rule(r09_14, model)
+    run.try_rule(r09_15, model)
     run.assume("children of a Lift IR variant are declared in source evaluation order (callee, arguments; lhs, rhs; receiver, arguments) - read and confirmed for ECall, EBinary, EDynCall")
